@@ -170,15 +170,42 @@ def run_impl_sharded(script: str, payloads: list, *, shards: int | None = None,
 # Coq build
 
 
-def hygiene() -> list[str]:
+def dep_closure(rel: str) -> list[Path]:
+    """Transitive .v dependencies (inside coq/) of coq/<rel>, via coqdep."""
+    files = sorted(str(p.relative_to(COQ)) for p in COQ.rglob("*.v") if not p.name.startswith("_dbg"))
+    p = sh(["coqdep", "-Q", ".", "Annet"] + files, cwd=COQ, timeout=120)
+    deps: dict[str, list[str]] = {}
+    for line in p.stdout.splitlines():
+        if ":" not in line:
+            continue
+        lhs, rhs = line.split(":", 1)
+        tgt = [t for t in lhs.split() if t.endswith(".vo")]
+        if not tgt:
+            continue
+        deps[tgt[0][:-1]] = [d[:-1] for d in rhs.split() if d.endswith(".vo")]
+    seen, todo = set(), [rel]
+    while todo:
+        f = todo.pop()
+        f = os.path.normpath(f)
+        if f in seen:
+            continue
+        seen.add(f)
+        todo.extend(deps.get(f, []))
+    return [COQ / f for f in sorted(seen)]
+
+
+def hygiene(scope: Sequence[Path] | None = None) -> list[str]:
     bad = []
-    for f in sorted(COQ.rglob("*.v")):
+    files = sorted(COQ.rglob("*.v")) if scope is None else list(scope)
+    for f in files:
         txt = f.read_text()
-        # strip comments (non-nested is enough for our style; nested handled by loop)
+        # strip comments (innermost first, repeated for nesting)
         prev = None
         while prev != txt:
             prev = txt
-            txt = re.sub(r"\(\*(?:(?!\(\*|\*\)).)*\*\)", " ", txt, flags=re.S)
+            txt = re.sub(r"\(\*(?:(?!\(\*|\*\)).)*\*\)", lambda m: "\n" * m.group(0).count("\n"), txt, flags=re.S)
+        # strip string literals
+        txt = re.sub(r'"(?:[^"]|"")*"', lambda m: '""' + "\n" * m.group(0).count("\n"), txt)
         depth = 0
         for n, line in enumerate(txt.splitlines(), 1):
             if re.match(r"\s*Section\b", line):
@@ -215,7 +242,7 @@ def write_if_changed(path: Path, text: str) -> bool:
 
 
 def coq_project() -> None:
-    files = sorted(str(p.relative_to(COQ)) for p in COQ.rglob("*.v"))
+    files = sorted(str(p.relative_to(COQ)) for p in COQ.rglob("*.v") if not p.name.startswith("_"))
     txt = "-Q . Annet\n-arg -w -arg -notation-overridden,-deprecated\n" + "\n".join(files) + "\n"
     changed = write_if_changed(COQ / "_CoqProject", txt)
     if changed or not (COQ / "Makefile").exists():
@@ -407,6 +434,8 @@ def finish(ctx: Ctx, level: str = "proof") -> int:
             seen_known.setdefault(v.signature, v)
         else:
             unlisted.append(v)
+    if any(not v.no_input for v in unlisted):
+        unlisted = [v for v in unlisted if not v.no_input]
     for sig, v in seen_known.items():
         print(f"KNOWN-FINDING: property={ctx.prop} {sig}: {open_sigs[sig].get('what', v.what)}")
     rc = 0
@@ -450,10 +479,10 @@ def proof_stage(ctx: Ctx, rel: str, *, allowed_axioms: Sequence[str] = ()) -> Th
     """Hygiene gate + translators + build + Print Assumptions audit.  Records coverage
     keys required for a proof-level claim; on failure registers a no-input violation that
     the property module may later replace by a concrete failing input."""
-    bad = hygiene()
+    gen = translate_all()
+    bad = hygiene(dep_closure(rel))
     if bad:
         raise CheckFailure("hygiene gate failed:\n" + "\n".join(bad))
-    gen = translate_all()
     rep = check_theorems(rel)
     ctx.coverage["obligations"] = len(rep.theorems)
     ctx.coverage["discharged"] = len(rep.theorems) if rep.compiled else 0
